@@ -227,8 +227,9 @@ def audit(name, box):
             counts['unique'] += 1
             back = cp.unicode_to_bytes(got)
             if back != k:
-                if count[want] > 1:
-                    # another code point's cluster is canonically equivalent (NFC-equal) to this one
+                if count[want] > 1 and back in [o for o in norm if norm[o] == want and o != k]:
+                    # another code point's cluster is canonically equivalent (NFC-equal) to this one,
+                    # and the round trip came back as that code point
                     why = 'printable-ascii-shadowed-by-canonical-equivalent' if (len(k) == 1 and bytearray(k)[0] < 0x7f) \
                         else 'canonically-equivalent-duplicate'
                     others = sorted(o for o in norm if norm[o] == want and o != k)
@@ -324,7 +325,14 @@ def _body(run):
     w.log.add('cfg', name, box, cfg.get('preserve'), usub, len(stream), len(chunks))
 
     def viol(sig, detail):
-        run.violate('C41', sig, 'codepage %s box_protect=%s preserve=%s: %s' % (name, box, cfg.get('preserve'), detail))
+        # C41's third clause is about the double-byte *byte-string* converter. Chunk-invariance of the
+        # unicode-reading InputStreamWrapper and equality with a reference lead+trail splitter go beyond
+        # what the property states: those mismatches are recorded as observations (tagged 'C41-beyond',
+        # listed in the evidence, never failing the check).
+        prop = 'C41'
+        if sig.startswith('chunking:input-read') or sig.startswith('reference:'):
+            prop = 'C41-beyond'
+        run.violate(prop, sig, 'codepage %s box_protect=%s preserve=%s: %s' % (name, box, cfg.get('preserve'), detail))
 
     # --- finite audit (cached per process, replayed into the run) -------------------------
     aviol, acounts = audit(name, box)
